@@ -29,6 +29,7 @@ InitVerdict(e) ==
 
 \* one abstract configuration written in one syntax and spelling, loaded by the real reader (C18)
 \*  e.A : the abstract configuration   e.fmt   e.loaded : projection of the loaded Config ([valid |-> FALSE] if it was rejected)
+\*  e.selfwant : the patterns an explicit entry for the config file itself lists (texts, {version} replaced)   e.selfraw : the patterns the loader holds for it
 \*  e.cfgfile : the config file's path   e.self : the search pattern(s) the loader attached to the config file itself (ASTs)   e.cvline : the file's current_version line
 LoadVerdict(e) ==
   LET x == Effective(e.A) IN
@@ -39,6 +40,7 @@ LoadVerdict(e) ==
   IF bad # {} THEN <<"load:setting-differs", [k \in bad |-> <<x[k], e.loaded[k]>>]>>
   ELSE IF x.files # {<<e.loaded.files[q][1], e.loaded.files[q][2]>> : q \in 1..Len(e.loaded.files)} THEN <<"load:file-pattern-pairs", x.files>>
   ELSE IF e.self = <<>> THEN <<"load:config-file-own-pattern-missing", 0>>
+  ELSE IF \E q \in 1..Len(e.selfwant) : ~\E r \in 1..Len(e.selfraw) : e.selfraw[r] = e.selfwant[q] THEN <<"load:explicit-patterns-of-the-config-file-lost", e.selfraw>>
   ELSE IF ~\E q \in 1..Len(e.self) : Search(Compile(e.self[q]), e.cvline).ok THEN <<"load:own-pattern-does-not-match-current-version-line", e.cvline>>
   ELSE Good
 
